@@ -24,7 +24,7 @@ type langGen struct {
 	tmplFocus bool
 }
 
-var lgVars = []string{"x", "y", "z", "u", "w", "n1", "力量"}
+var lgVars = []string{"x", "y", "z", "u", "w", "n1", "力量", "trueDmg", "nullable", "thisTurn", "returnV", "breakpt", "continued", "falsey", "iffy"}
 var lgFuncs = []string{"g1", "g2", "h1"}
 
 func (g *langGen) pp(n N) N {
